@@ -226,6 +226,8 @@ def iterate (root : State) (rng0 : Rng.ChaCha8) (maxDepth : Option Nat) (art : A
   let mut polls := 0
   let mut panicked : Option String := Option.none
   let limit := match maxDepth with | some d => d | Option.none => fuelDepth
+  -- since the repair of F2: a root without legal moves is not searched at all
+  let limit := if (legalMoves root).isEmpty then 0 else limit
   for depth in [0:limit] do
     let workers := workersOf depth
     -- thread data: one `rng.gen()` per worker, in order
@@ -254,19 +256,16 @@ def iterate (root : State) (rng0 : Rng.ChaCha8) (maxDepth : Option Nat) (art : A
       events := events.push (.progress (depth + 1) nodes)
       let line := walkLine keys tt (depth + 1) root
       bestMv := line.head?
-      if line.isEmpty then
-        panicked := some "assert!(!line.is_empty())"
-        break
-      events := events.push (.best bestEval line)
-      if bestEval ≥ Ev.posInf then break
+      -- since the repair of F2: `if line.is_empty() { continue; }` (was `assert!`)
+      if !line.isEmpty then
+        events := events.push (.best bestEval line)
+        if bestEval ≥ Ev.posInf then break
     else
       match tt.find rootHash.toNat with
       | some x =>
         if x.eval > bestEval then
           let line := walkLine keys tt (depth + 1) root
-          if line.isEmpty then
-            panicked := some "assert!(!line.is_empty())"
-          else
+          if !line.isEmpty then
             events := events.push (.best x.eval line)
       | Option.none => pure ()
       break
